@@ -372,6 +372,11 @@ class PyReader:
             return any(self.match_pattern(p_, subject, env, fns, node) for p_ in pat.patterns)
         if isinstance(pat, ast.MatchClass) and not pat.patterns and not pat.kwd_patterns:
             return self.is_instance(subject, self.class_names(pat.cls), pat)
+        if isinstance(pat, ast.MatchSequence) and not any(isinstance(p_, ast.MatchStar) for p_ in pat.patterns):
+            # case (True, False): / case [a, _]: - a sequence of exactly that length, element by element
+            if not isinstance(subject, (list, tuple)) or len(subject) != len(pat.patterns):
+                return False
+            return all(self.match_pattern(p_, x_, env, fns, node) for p_, x_ in zip(pat.patterns, subject))
         self.fail(node, "match pattern outside the supported subset")
 
     def assign(self, t: ast.AST, v, env: dict, node: ast.AST) -> None:
@@ -464,6 +469,9 @@ class PyReader:
             g = self.global_value(n)
             if g is not None:
                 return g
+            if isinstance(n.value, ast.Name) and n.value.id == "operator" and n.value.id not in env and n.attr in ("add", "mul", "sub", "truediv", "neg") \
+                    and any(isinstance(s_, ast.Import) and any(a_.name == "operator" and a_.asname is None for a_ in s_.names) for s_ in self.module.body):
+                return ("operator", n.attr)
             base = self.ev(n.value, env, fns)
             if n.attr in ("is_negative", "is_positive", "is_zero", "is_nonnegative", "is_nonpositive") and isinstance(base, (T, int)):
                 val = base if isinstance(base, int) else (base.val if base.op == "num" else (-base.args[0].val if base.op == "neg" and base.args[0].op == "num" else None))
@@ -685,6 +693,8 @@ class PyReader:
             fake = ast.BinOp(left=ast.Name(id="__op_l__", ctx=ast.Load()), op={"add": ast.Add(), "mul": ast.Mult(), "sub": ast.Sub(), "truediv": ast.Div()}[fval[1]], right=ast.Name(id="__op_r__", ctx=ast.Load()))
             ast.copy_location(fake, n)
             return self.ev(fake, {"__op_l__": args[0], "__op_r__": args[1]}, fns)
+        if isinstance(fval, tuple) and len(fval) == 4 and fval[0] == "partial":
+            return self.apply_value(fval[1], list(fval[2]) + list(args), n, fns, {**fval[3], **(kwargs or {})})
         if isinstance(fval, tuple) and len(fval) == 2 and fval[0] == "extfn":
             names_ = [f"__xf_a{i}__" for i in range(len(args))]
             fake = ast.Call(func=ast.Name(id=fval[1], ctx=ast.Load()), args=[ast.Name(id=x, ctx=ast.Load()) for x in names_],
@@ -831,11 +841,22 @@ class PyReader:
     # static methods of classes defined in OTHER modules that the evaluated code may call, by dotted callee: {"CoordinateSystem.is_angle_component": FunctionDef}.
     # They are evaluated from their source like a function of this module.
     extern_static: dict = {}
+    # module-level functions of OTHER modules the evaluated code imports by name: {"helper": FunctionDef}; evaluated from their source
+    extern_functions: dict = {}
 
     def ev_call(self, n: ast.Call, env: dict, fns: dict):
         r = self.hook_call(n, env, fns)
         if r is not NotImplemented:
             return r
+        if self.extern_functions and isinstance(n.func, ast.Name) and n.func.id in self.extern_functions and n.func.id not in env and n.func.id not in fns \
+                and n.func.id not in self.functions:
+            args_ = []
+            for a in n.args:
+                if isinstance(a, ast.Starred):
+                    args_ += list(self.ev(a.value, env, fns))
+                else:
+                    args_.append(self.ev(a, env, fns))
+            return self.call_def(self.extern_functions[n.func.id], args_, {k.arg: self.ev(k.value, env, fns) for k in n.keywords if k.arg}, {})
         if self.extern_static and (dotted(n.func) or "") in self.extern_static and (dotted(n.func) or "").split(".")[0] not in env:
             args_ = []
             for a in n.args:
@@ -883,6 +904,11 @@ class PyReader:
             if isinstance(got_, tuple) and len(got_) == 3 and got_[0] == "bound":
                 return ("methodref", obj, attr_)  # called like the spelled-out obj.name(...): the rule's method hooks see it
             return got_
+        if name == "partial" and n.args and name not in self.functions and name not in env:
+            fval = self.ev(n.args[0], env, fns)
+            pargs = [self.ev(a, env, fns) for a in n.args[1:]]
+            pkw = {k.arg: self.ev(k.value, env, fns) for k in n.keywords if k.arg}
+            return ("partial", fval, pargs, pkw)
         if name == "reduce" and len(n.args) in (2, 3):
             fval = self.ev(n.args[0], env, fns)
             seq = self.ev(n.args[1], env, fns)
@@ -1009,6 +1035,8 @@ class PyReader:
                                                              "isspace", "isdigit", "isalpha", "count", "find", "removeprefix", "removesuffix", "expandtabs", "title", "capitalize", "rfind", "zfill", "ljust", "rjust") \
                         and all(isinstance(a_, (str, int)) or (isinstance(a_, list) and all(isinstance(x_, str) for x_ in a_)) or a_ is None for a_ in args) and not kwargs:
                     return getattr(base, n.func.attr)(*[tuple(a_) if n.func.attr in ("startswith", "endswith") and isinstance(a_, list) else a_ for a_ in args])
+                if isinstance(base, str) and n.func.attr == "format" and not all(isinstance(a_, (str, int)) and not isinstance(a_, bool) for a_ in list(args) + list(kwargs.values())):
+                    return "<?>"  # the text of a message about abstract values: opaque, like an f-string with abstract parts
                 if isinstance(base, str) and n.func.attr == "format" and all(isinstance(a_, (str, int)) and not isinstance(a_, bool) for a_ in list(args) + list(kwargs.values())):
                     try:
                         return base.format(*args, **kwargs)
